@@ -90,9 +90,11 @@ func (c *chatHandler) handleLegacyCommand(packet *chat.LegacyChat) error {
 			return nil
 		}
 		if !hasRun {
+			// Forward the command the event asked for (it equals the original unless a plugin rewrote it),
+			// like the keyed and session handlers do.
 			return (&chat.Builder{
 				Protocol: c.player.Protocol(),
-				Message:  packet.Message,
+				Message:  "/" + commandToRun,
 				Sender:   c.player.ID(),
 			}).ToServer()
 		}
@@ -121,10 +123,11 @@ func (c *chatHandler) handleKeyedCommand(packet *chat.KeyedPlayerCommand) error 
 			if !packet.Unsigned && commandToRun == packet.Command {
 				return packet
 			} else {
-				if !packet.Unsigned && playerKey != nil && keyrevision.RevisionIndex(playerKey.KeyRevision()) >= keyrevision.RevisionIndex(keyrevision.LinkedV2) {
-					if c.disconnectIllegalProtocolState(c.player) {
-						c.log.Info("A plugin tried to deny a command with signable component(s). This is not supported with forceKeyAuthentication enabled.")
-					}
+				// Only drop the command when the player was actually disconnected (forceKeyAuthentication);
+				// otherwise forward the rewritten command unsigned, like the not-a-proxy-command path below.
+				if !packet.Unsigned && playerKey != nil && keyrevision.RevisionIndex(playerKey.KeyRevision()) >= keyrevision.RevisionIndex(keyrevision.LinkedV2) &&
+					c.disconnectIllegalProtocolState(c.player) {
+					c.log.Info("A plugin tried to deny a command with signable component(s). This is not supported with forceKeyAuthentication enabled.")
 					return nil
 				}
 				return (&chat.Builder{
